@@ -49,6 +49,9 @@ def generate(r, tier):
     n = len(sc["ops"])
     sc["checkpoints"] = sorted(r.sample(range(1, n + 1), r.choice([0, 0, 1]))) if n > 1 else []
     sc["vseed"] = r.getrandbits(32)
+    # read schedule: "rationed" (only the history's own reads fill the caches) or "warm" (everything is read after every
+    # operation and compared with a shadow node that evaluates from scratch each time)
+    sc["warm"] = r.random() < 0.35
     return sc
 
 
@@ -103,8 +106,37 @@ def execute(sc, ctx):
     reads_then_writes = [False, False]
     model = ops.UserModel(node.k)
 
+    shadow = ops.KNode(ctx.fresh_dir("sbw"), text, parser=sc["parser"], policy=sc["policy"]) if sc.get("warm") else None
+    warm_state = {"dead": False}
+    if shadow is not None:
+        ctx.counters["probe:warm-shadow-run"] += 1
+
+    def warm_compare(i, op):
+        """Everything is cached in the primary at all times, so an entry is stale exactly when an invalidation was missed;
+        the shadow gets the same operation and is evaluated from scratch (this comparison never heals the primary)."""
+        if warm_state["dead"]:
+            return
+        try:
+            shadow.apply(op, sc["hand"])
+        except ops.OpRaised:
+            warm_state["dead"] = True
+            return
+        v1 = ops.view(node.k)
+        with simproc.quiet():
+            shadow.k._invalidate_all()
+        v2 = ops.view(shadow.k)
+        if v1 != v2:
+            d = ops.diff_views(v1, v2)
+            fields = sorted({["value", "visibility", "assignable", "config_string"][j] if not n.startswith("<") else "selection"
+                             for n, a, b in d for j in range(min(len(a), 4)) if a[j] != b[j]})
+            ctx.violate(f"C03/stale-cache/{_classify(node.k, [x[0] for x in d])}/{'+'.join(fields)}",
+                        f"after op {i} {op[:3]} (everything cached): the view differs from a shadow node evaluated from scratch: {d}")
+            warm_state["dead"] = True
+
     def after(i, op):
         model.apply(op, sc["hand"], node)
+        if shadow is not None:
+            warm_compare(i, op)
         if op[0] == "read":
             reads_then_writes[0] = True
         elif reads_then_writes[0] and op[0] in ("set", "unset", "reset", "reset_menu", "cunset", "load", "load_hand"):
@@ -157,5 +189,9 @@ def reductions(sc):
     if sc.get("checkpoints"):
         c = copy.deepcopy(sc)
         c["checkpoints"] = []
+        yield c
+    if sc.get("warm"):
+        c = copy.deepcopy(sc)
+        c["warm"] = False
         yield c
     yield from common.prog_reductions(sc)
